@@ -27,14 +27,19 @@ import (
 	"strings"
 
 	"github.com/prometheus/prometheus/model/exemplar"
+	"github.com/prometheus/prometheus/model/histogram"
 	"github.com/prometheus/prometheus/model/labels"
 	"github.com/prometheus/prometheus/model/metadata"
 	"github.com/prometheus/prometheus/model/value"
 	"github.com/prometheus/prometheus/storage"
 	"github.com/prometheus/prometheus/tsdb"
 	"github.com/prometheus/prometheus/tsdb/agent"
+	"github.com/prometheus/prometheus/tsdb/chunkenc"
+	"github.com/prometheus/prometheus/tsdb/chunks"
+	"github.com/prometheus/prometheus/tsdb/index"
 	"github.com/prometheus/prometheus/tsdb/record"
 	"github.com/prometheus/prometheus/tsdb/tombstones"
+	"github.com/prometheus/prometheus/tsdb/tsdbutil"
 	"github.com/prometheus/prometheus/tsdb/wlog"
 	"github.com/prometheus/prometheus/util/compression"
 
@@ -98,6 +103,12 @@ func (in *interner) val(s string) int64 {
 }
 
 func (in *interner) fval(f float64) int64 { return in.val(strconv.FormatUint(math.Float64bits(f), 16)) }
+func (in *interner) hval(h *histogram.Histogram) int64 {
+	return in.val(fmt.Sprintf("h%d%v%s", h.Schema, h.CustomValues, h.String()))
+}
+func (in *interner) fhval(h *histogram.FloatHistogram) int64 {
+	return in.val(fmt.Sprintf("fh%d%v%s", h.Schema, h.CustomValues, h.String()))
+}
 func (in *interner) eval(f float64, l labels.Labels) int64 {
 	return in.val("e" + strconv.FormatUint(math.Float64bits(f), 16) + l.String())
 }
@@ -118,6 +129,28 @@ func decode(in *interner, dec *record.Decoder, b []byte) rec {
 		r := rec{Kind: 1}
 		for _, s := range ss {
 			r.Triples = append(r.Triples, [3]int64{int64(s.Ref), s.T, in.fval(s.V)})
+		}
+		return r
+	case record.HistogramSamples, record.HistogramSamplesV2, record.CustomBucketsHistogramSamples:
+		hs, err := dec.HistogramSamples(b, nil)
+		must(err)
+		r := rec{Kind: 1, K: 1}
+		if dec.Type(b) == record.CustomBucketsHistogramSamples {
+			r.K = 3
+		}
+		for _, s := range hs {
+			r.Triples = append(r.Triples, [3]int64{int64(s.Ref), s.T, in.hval(s.H)})
+		}
+		return r
+	case record.FloatHistogramSamples, record.FloatHistogramSamplesV2, record.CustomBucketsFloatHistogramSamples:
+		hs, err := dec.FloatHistogramSamples(b, nil)
+		must(err)
+		r := rec{Kind: 1, K: 2}
+		if dec.Type(b) == record.CustomBucketsFloatHistogramSamples {
+			r.K = 4
+		}
+		for _, s := range hs {
+			r.Triples = append(r.Triples, [3]int64{int64(s.Ref), s.T, in.fhval(s.FH)})
 		}
 		return r
 	case record.Exemplars:
@@ -288,21 +321,25 @@ func readWAL(in *interner, dir string, cache segCache) walDir {
 // ---------------------------------------------------------------- the world
 
 type world struct {
-	root    string
-	walDir  string
-	head    *tsdb.Head
-	nheads  int
-	in      *interner
-	seen    map[int]int // records already reported, per segment
-	cache   segCache
-	logName string
-	events  []string
-	obs     []string
-	desc    []string
-	racy    map[int64]bool // label sets that were evicted (full-range tombstone in the log)
-	viol    []string
-	shape   string
-	metaDup bool
+	root          string
+	walDir        string
+	head          *tsdb.Head
+	nheads        int
+	in            *interner
+	seen          map[int]int // records already reported, per segment
+	cache         segCache
+	logName       string
+	events        []string
+	obs           []string
+	desc          []string
+	racy          map[int64]bool // label sets that were evicted (full-range tombstone in the log)
+	viol          []string
+	kindsAt       map[int64]int // commit time -> set of sample kinds appended at it
+	boundary      [3]int        // kinds with a sample at mint-1 / mint / mint+1 in some effective truncation
+	unknownOrphan bool
+	stStorage     bool // 'st-storage': V2 WAL records
+	shape         string
+	metaDup       bool
 
 	// statistics
 	effective, restarts, gcDeleted, evicted, dupLabs, dropped int
@@ -322,6 +359,7 @@ func (w *world) open(mv int64) {
 	opts.StripeSize = 16
 	opts.WALReplayConcurrency = 2
 	opts.ChunkWriteBufferSize = 64 * 1024
+	opts.EnableSTStorage.Store(w.stStorage)
 	h, err := tsdb.NewHead(nil, nil, wl, nil, opts, nil)
 	must(err)
 	must(h.Init(mv))
@@ -427,6 +465,9 @@ func (w *world) truncate(mint int64) {
 	w.obs = append(w.obs, fmt.Sprintf("OTrunc %s %s %s %s %s %s %s", zz(int64(post.CpIdx)), recList(post.Cp),
 		zz(int64(post.First)), zz(int64(post.Last)), zz(int64(n)), lz(refs), w.expiries()))
 	if post.CpIdx != pre.CpIdx {
+		for d := -1; d <= 1; d++ {
+			w.boundary[d+1] |= w.kindsAt[mint+int64(d)]
+		}
 		w.effective++
 		nin := len(pre.Cp)
 		for s := pre.First; s <= post.CpIdx; s++ {
@@ -511,6 +552,57 @@ func (w *world) evict(refs []uint64, maxt int64, stale bool) {
 	w.desc = append(w.desc, fmt.Sprintf("evict(%v, maxt=%d, stale=%v) deleted=%v", refs, maxt, stale, deleted))
 }
 
+type rawSample struct {
+	T int64
+	V int64 // interned value
+}
+
+// headSamples returns, per series ref, the samples of the head's in-order chunks (any sample type),
+// read through Head.Index() / Head.Chunks(); tombstones are not applied.
+func (w *world) headSamples() map[uint64][]rawSample {
+	out := map[uint64][]rawSample{}
+	ir, err := w.head.Index()
+	must(err)
+	defer ir.Close()
+	cr, err := w.head.Chunks()
+	must(err)
+	defer cr.Close()
+	k, v := index.AllPostingsKey()
+	ps, err := ir.Postings(context.Background(), k, v)
+	must(err)
+	var b labels.ScratchBuilder
+	for ps.Next() {
+		var metas []chunks.Meta
+		must(ir.Series(ps.At(), &b, &metas))
+		for _, m := range metas {
+			c, it, err := cr.ChunkOrIterable(m)
+			must(err)
+			var ci chunkenc.Iterator
+			if c != nil {
+				ci = c.Iterator(nil)
+			} else {
+				ci = it.Iterator(nil)
+			}
+			for vt := ci.Next(); vt != chunkenc.ValNone; vt = ci.Next() {
+				switch vt {
+				case chunkenc.ValFloat:
+					t, f := ci.At()
+					out[uint64(ps.At())] = append(out[uint64(ps.At())], rawSample{t, w.in.fval(f)})
+				case chunkenc.ValHistogram:
+					t, h := ci.AtHistogram(nil)
+					out[uint64(ps.At())] = append(out[uint64(ps.At())], rawSample{t, w.in.hval(h)})
+				case chunkenc.ValFloatHistogram:
+					t, h := ci.AtFloatHistogram(nil)
+					out[uint64(ps.At())] = append(out[uint64(ps.At())], rawSample{t, w.in.fhval(h)})
+				}
+			}
+			must(ci.Err())
+		}
+	}
+	must(ps.Err())
+	return out
+}
+
 func (w *world) restart(mv int64) {
 	w.close()
 	w.open(mv)
@@ -520,6 +612,7 @@ func (w *world) restart(mv int64) {
 	d := readWAL(w.in, w.walDir, w.cache)
 
 	dump := w.head.VerifDump()
+	raw := w.headSamples()
 	stones := w.head.VerifTombstones()
 	metas := w.head.VerifC15SeriesMeta()
 	var series, metaPairs [][2]int64
@@ -532,16 +625,14 @@ func (w *world) restart(mv int64) {
 		L := w.in.lab(s.Labels)
 		series = append(series, [2]int64{int64(s.Ref), L})
 		var it []string
-		for _, c := range s.InOrder {
-			for _, sm := range c.Samples {
-				vis := true
-				for _, iv := range stones[s.Ref] {
-					if iv[0] <= sm.T && sm.T <= iv[1] {
-						vis = false
-					}
+		for _, sm := range raw[s.Ref] {
+			vis := true
+			for _, iv := range stones[s.Ref] {
+				if iv[0] <= sm.T && sm.T <= iv[1] {
+					vis = false
 				}
-				it = append(it, fmt.Sprintf("smp %s %s %s", zi(sm.T), zi(w.in.fval(sm.V)), gallina.Bool(vis)))
 			}
+			it = append(it, fmt.Sprintf("smp %s %s %s", zi(sm.T), zi(sm.V), gallina.Bool(vis)))
 		}
 		content = append(content, lc{L, "(" + zz(L) + ", " + gallina.List(it) + ")"})
 		if m, ok := metas[s.Ref]; ok {
@@ -588,7 +679,25 @@ func (w *world) restart(mv int64) {
 
 // ---------------------------------------------------------------- history generation
 
+var kindNames = [...]string{"float", "histogram", "float-histogram", "nhcb", "float-nhcb"}
+
+// appendKind appends one sample of the series' kind (n makes counters grow).
+func appendKind(app storage.Appender, kind int, l labels.Labels, t, n int64) (storage.SeriesRef, error) {
+	switch kind {
+	case 1:
+		return app.AppendHistogram(0, l, t, tsdbutil.GenerateTestHistogram(n), nil)
+	case 2:
+		return app.AppendHistogram(0, l, t, nil, tsdbutil.GenerateTestFloatHistogram(n))
+	case 3:
+		return app.AppendHistogram(0, l, t, tsdbutil.GenerateTestCustomBucketsHistogram(n), nil)
+	case 4:
+		return app.AppendHistogram(0, l, t, nil, tsdbutil.GenerateTestCustomBucketsFloatHistogram(n))
+	}
+	return app.Append(0, l, t, float64(n))
+}
+
 type serDef struct {
+	kind  int
 	lset  labels.Labels
 	last  int64 // time of the last accepted sample
 	count int64
@@ -606,26 +715,35 @@ func runCase(outDir string, seed uint64, idx int, corpus int) (string, map[strin
 	must(err)
 	defer os.RemoveAll(root)
 	w := &world{root: root, walDir: filepath.Join(root, "wal"), in: newInterner(), seen: map[int]int{}, cache: segCache{}, logName: "ELog",
-		racy: map[int64]bool{}, labRefs: map[int64]map[uint64]bool{}}
+		racy: map[int64]bool{}, labRefs: map[int64]map[uint64]bool{}, kindsAt: map[int64]int{}}
+	w.stStorage = r.Chance(1, 3) && corpus != 0
 	w.open(math.MinInt64)
 
-	nser := 3 + r.Intn(6)
+	// every history has series of all five sample kinds (float, histogram, float histogram, NHCB, float NHCB)
+	nser := 5 + r.Intn(4)
+	if corpus >= 0 {
+		nser = 7
+	}
+	koff := r.Intn(5)
 	sers := make([]*serDef, nser)
 	for i := range sers {
 		ls := []string{"__name__", fmt.Sprintf("m%d", i)}
-		if r.Chance(1, 5) {
+		if r.Chance(1, 5) && corpus < 0 {
 			ls = append(ls, "pad", strings.Repeat("x", 4000+r.Intn(9000))) // fills segments quickly
 		}
-		sers[i] = &serDef{lset: labels.FromStrings(ls...), last: math.MinInt64}
+		sers[i] = &serDef{kind: (i + koff) % 5, lset: labels.FromStrings(ls...), last: math.MinInt64}
 	}
 	// activity classes: some series are busy, some go idle (and are garbage collected), some come back
 	active := make([]bool, nser)
 	for i := range active {
-		active[i] = r.Chance(3, 4)
+		active[i] = r.Chance(3, 4) || corpus >= 0
 	}
 	active[0] = true
 
 	now := int64(1000 + r.Intn(500))
+	if corpus >= 0 {
+		now = 1000
+	}
 	g := int64(math.MinInt64)     // highest truncation time so far
 	floor := int64(math.MinInt64) // minValidTime of the last Init
 	nops := 14 + r.Intn(30)
@@ -639,11 +757,12 @@ func runCase(outDir string, seed uint64, idx int, corpus int) (string, map[strin
 			s := sers[i]
 			s.count++
 			v := float64(s.count)
-			ref, err := app.Append(0, s.lset, now, v)
+			ref, err := appendKind(app, s.kind, s.lset, now, s.count)
 			if err != nil {
 				continue
 			}
 			s.last = now
+			w.kindsAt[now] |= 1 << s.kind
 			if r.Chance(exProb, 10) {
 				_, _ = app.AppendExemplar(ref, s.lset, exemplar.Exemplar{
 					Labels: labels.FromStrings("trace", fmt.Sprintf("t%d", s.count)), Value: v, Ts: now - int64(r.Intn(3)), HasTs: true})
@@ -657,6 +776,9 @@ func runCase(outDir string, seed uint64, idx int, corpus int) (string, map[strin
 		w.flushLog()
 	}
 	exProb, metaProb := r.Intn(6), r.Intn(6)
+	if corpus >= 0 {
+		exProb, metaProb = 10, 10
+	}
 
 	// first commit: all active series
 	var first []int
@@ -668,6 +790,45 @@ func runCase(outDir string, seed uint64, idx int, corpus int) (string, map[strin
 	commit(first, exProb, 8)
 	w.desc = append(w.desc, fmt.Sprintf("series=%d first=%v now=%d", nser, first, now))
 
+	if corpus >= 0 {
+		// fixed reproducer: every record kind (float, histogram, float histogram, NHCB, float NHCB samples,
+		// exemplars, tombstones, metadata) with timestamps 1000..1003 in segment 0, which the checkpoints of
+		// Truncate(1001) and, after a restart, Truncate(1002) fold in: mint-1 / mint / mint+1 for every kind
+		all := []int{0, 1, 2, 3, 4, 5, 6}
+		for _, t := range []int64{1001, 1002, 1003} {
+			now = t
+			commit(all, 10, 10)
+		}
+		for i, hi := range []int64{1000, 1001, 1002, 1003} {
+			must(w.head.Delete(context.Background(), 0, hi, labels.MustNewMatcher(labels.MatchEqual, "__name__", fmt.Sprintf("m%d", i))))
+			w.flushLog()
+		}
+		roll := func(n int) {
+			for ; n > 0; n-- {
+				_, err := w.head.VerifC15WAL().NextSegment()
+				must(err)
+				w.events = append(w.events, "ERoll")
+			}
+		}
+		roll(4)
+		now = 3000
+		commit(all, 10, 10)
+		w.truncate(1001)
+		w.restart(math.MinInt64)
+		now = 3100
+		commit(all, 10, 10)
+		roll(3)
+		w.truncate(1002)
+		g = 1002
+		w.restart(1002)
+		floor = 1002
+		roll(3)
+		now = 3200
+		commit(all, 10, 10)
+		w.truncate(1003)
+		g = 1003
+		w.desc = append(w.desc, "scripted: all kinds at 1000..1003, Truncate(1001), restart, Truncate(1002), restart, Truncate(1003)")
+	}
 	for op := 0; op < nops; op++ {
 		now += int64(10 + r.Intn(400))
 		switch k := r.Intn(100); {
@@ -691,14 +852,29 @@ func runCase(outDir string, seed uint64, idx int, corpus int) (string, map[strin
 			i := r.Intn(nser)
 			lo := now - int64(r.Intn(1500))
 			hi := lo + int64(r.Intn(800))
+			if r.Chance(1, 2) && len(commitTimes) > 0 { // tombstone Maxt exactly at a sample time
+				hi = commitTimes[r.Intn(len(commitTimes))]
+				lo = hi - int64(r.Intn(800))
+			}
 			must(w.head.Delete(context.Background(), lo, hi, labels.MustNewMatcher(labels.MatchEqual, "__name__", fmt.Sprintf("m%d", i))))
 			w.flushLog()
 			w.desc = append(w.desc, fmt.Sprintf("delete m%d [%d,%d]", i, lo, hi))
 		case k < 80: // truncate
 			var mint int64
 			switch {
-			case r.Chance(1, 4) && len(commitTimes) > 0:
-				mint = commitTimes[len(commitTimes)-1-r.Intn(min(len(commitTimes), 6))] // exactly a sample time
+			case r.Chance(1, 2) && len(commitTimes) > 0:
+				// a sample time of every record kind, or one millisecond below / above it; older commits (whose
+				// segments get folded into the checkpoint) preferred, but above the last truncation
+				var cand []int64
+				for _, ct := range commitTimes {
+					if ct-1 > g {
+						cand = append(cand, ct)
+					}
+				}
+				if len(cand) == 0 {
+					cand = commitTimes
+				}
+				mint = cand[r.Intn((len(cand)+1)/2)] + int64(r.Intn(3)) - 1
 			case r.Chance(1, 10):
 				mint = now - int64(r.Intn(3000)) // possibly below earlier truncations
 			case r.Chance(1, 3):
@@ -799,32 +975,39 @@ func agentState(db *agent.DB, in *interner) (refs []int64, deleted [][2]int64) {
 
 // runAgentCase drives a real agent.DB: commits (samples, exemplars; series that go idle and come back),
 // DB.truncate(ts) (series GC + checkpoint + segment truncation), forced rollover and reopening.
-func runAgentCase(outDir string, seed uint64, idx int) (string, map[string]any, *world) {
+func runAgentCase(outDir string, seed uint64, idx int, scripted bool) (string, map[string]any, *world) {
 	r := gen.Fork(seed, idx)
 	root, err := os.MkdirTemp(outDir, "c15a_")
 	must(err)
 	defer os.RemoveAll(root)
 	w := &world{root: root, walDir: filepath.Join(root, "wal"), in: newInterner(), seen: map[int]int{}, cache: segCache{},
-		logName: "ALog", racy: map[int64]bool{}, labRefs: map[int64]map[uint64]bool{}}
+		logName: "ALog", racy: map[int64]bool{}, labRefs: map[int64]map[uint64]bool{}, kindsAt: map[int64]int{}}
 	opts := agent.DefaultOptions()
 	opts.WALSegmentSize = 32 * 1024
 	opts.NoLockfile = true
 	opts.StripeSize = 16
+	opts.EnableSTStorage = r.Chance(1, 3) && !scripted
 	open := func() *agent.DB {
 		db, err := agent.Open(slog.New(slog.DiscardHandler), nil, nil, root, opts)
 		must(err)
 		return db
 	}
 	db := open()
-	nser := 3 + r.Intn(6)
+	nser := 5 + r.Intn(4)
+	if scripted {
+		nser = 2
+	}
+	koff := r.Intn(5)
 	lsets := make([]labels.Labels, nser)
+	kinds := make([]int, nser)
 	active := make([]bool, nser)
 	for i := range lsets {
 		ls := []string{"__name__", fmt.Sprintf("m%d", i)}
-		if r.Chance(1, 5) {
+		if r.Chance(1, 5) && !scripted {
 			ls = append(ls, "pad", strings.Repeat("y", 4000+r.Intn(9000)))
 		}
 		lsets[i] = labels.FromStrings(ls...)
+		kinds[i] = (i + koff) % 5 // all five sample kinds
 		active[i] = r.Chance(3, 4)
 	}
 	active[0] = true
@@ -834,11 +1017,11 @@ func runAgentCase(outDir string, seed uint64, idx int) (string, map[string]any, 
 	commit := func() {
 		app := db.Appender(context.Background())
 		for i, l := range lsets {
-			if !active[i] || r.Chance(1, 5) {
+			if !active[i] || (r.Chance(1, 5) && !scripted) {
 				continue
 			}
 			cnt++
-			ref, err := app.Append(0, l, now, float64(cnt))
+			ref, err := appendKind(app, kinds[i], l, now, int64(cnt))
 			if err != nil {
 				continue
 			}
@@ -915,20 +1098,34 @@ func runAgentCase(outDir string, seed uint64, idx int) (string, map[string]any, 
 				}
 			}
 			scan(post.Cp)
+			inCheckpoint := len(orphans)
 			for sg := post.First; sg <= post.Last && post.First >= 0; sg++ {
 				scan(post.Segs[sg])
 			}
-			if len(orphans) > 0 && allDup && w.shape == "" {
-				w.shape = "agent-duplicate-ref-orphan"
-				w.desc = append(w.desc, fmt.Sprintf("FINDING agent-duplicate-ref-orphan: checkpoint.%08d + segments hold samples/exemplars of duplicate refs %v without series record", post.CpIdx, orphans))
-			} else if len(orphans) > 0 && ts < maxTS && w.shape == "" {
+			// Both known findings leave their orphans INSIDE the new checkpoint (the ref's last segment was
+			// folded into it).  An orphan in a remaining segment is never a known finding.
+			switch {
+			case len(orphans) == 0:
+			case len(orphans) > inCheckpoint:
+				w.unknownOrphan = true
+				w.desc = append(w.desc, fmt.Sprintf("ORPHANS in remaining segments after checkpoint.%08d: refs %v", post.CpIdx, orphans[inCheckpoint:]))
+			case allDup:
+				if w.shape == "" {
+					w.shape = "agent-duplicate-ref-orphan"
+				}
+				w.desc = append(w.desc, fmt.Sprintf("FINDING agent-duplicate-ref-orphan: checkpoint.%08d holds samples/exemplars of duplicate refs %v without series record", post.CpIdx, orphans))
+			case ts < maxTS:
 				// same root cause, other trigger: a truncation time LOWER than an earlier one (the run loop's ts
 				// drops when a remote-write queue is added) keeps samples of series that an earlier, later-timed
 				// truncation already garbage collected and whose record is dropped by segment number
-				w.shape = "agent-lower-mint-orphan"
-				w.desc = append(w.desc, fmt.Sprintf("FINDING agent-lower-mint-orphan: truncate(%d) after truncate(%d): checkpoint.%08d + segments hold samples/exemplars of refs %v without series record", ts, maxTS, post.CpIdx, orphans))
+				if w.shape == "" {
+					w.shape = "agent-lower-mint-orphan"
+				}
+				w.desc = append(w.desc, fmt.Sprintf("FINDING agent-lower-mint-orphan: truncate(%d) after truncate(%d): checkpoint.%08d holds samples/exemplars of refs %v without series record", ts, maxTS, post.CpIdx, orphans))
+			default:
+				w.unknownOrphan = true
+				w.desc = append(w.desc, fmt.Sprintf("ORPHANS in checkpoint.%08d: refs %v", post.CpIdx, orphans))
 			}
-
 		}
 		if ts > maxTS {
 			maxTS = ts
@@ -943,8 +1140,46 @@ func runAgentCase(outDir string, seed uint64, idx int) (string, map[string]any, 
 		w.events = append(w.events, fmt.Sprintf("ARestart %s %s", lz(refs), pairs(del)))
 		w.desc = append(w.desc, fmt.Sprintf("agent-restart series=%d deleted=%d", len(refs), len(del)))
 	}
-	commit()
 	nops := 14 + r.Intn(30)
+	if scripted {
+		// fixed reproducer: series m0 receives only float histograms, is garbage collected by truncate while
+		// its record stays in the checkpoint, comes back under a new ref, keeps receiving histograms across
+		// several segments; after a reopen the new ref is a duplicate; the next truncate folds the segment of
+		// the duplicate's series record but not the later segments that hold its samples.
+		nops = 0
+		kinds[0], kinds[1] = 2, 0
+		roll := func(n int) {
+			for ; n > 0; n-- {
+				_, err := db.VerifC15WAL().NextSegment()
+				must(err)
+				w.events = append(w.events, "ARoll")
+			}
+		}
+		active[0], active[1] = true, true
+		now = 1000
+		commit()
+		roll(3)
+		active[0] = false
+		now = 1500
+		commit()
+		truncate(1200) // m0 gone, its record kept in the checkpoint
+		active[0] = true
+		for _, t := range []int64{2000, 2100, 2200} {
+			now = t
+			commit() // m0 under a new ref, one segment per commit
+			if t != 2200 {
+				roll(1)
+			}
+		}
+		restart() // the new ref is a duplicate; deleted[dup].lastSegment must be the segment of @2200
+		now = 2300
+		commit()
+		truncate(1300)
+		restart()
+		w.desc = append(w.desc, "scripted: float-histogram series re-created, duplicate after reopen, truncate between its record and its last samples")
+	} else {
+		commit()
+	}
 	for op := 0; op < nops; op++ {
 		now += int64(10 + r.Intn(400))
 		switch k := r.Intn(100); {
@@ -984,7 +1219,7 @@ func runAgentCase(outDir string, seed uint64, idx int) (string, map[string]any, 
 	}
 	term := fmt.Sprintf("mkCase %s\n [] [] %s\n %s", zz(int64(idx)), gallina.List(w.events), gallina.List(w.obs))
 	shape := "agent-history"
-	if w.shape != "" {
+	if w.shape != "" && !w.unknownOrphan {
 		shape = w.shape
 	}
 	desc := map[string]any{"shape": shape, "seed": seed, "index": idx, "ops": w.desc}
@@ -999,7 +1234,7 @@ func reproMetaOrder(outDir string, n int) {
 		root, err := os.MkdirTemp(outDir, "c15r_")
 		must(err)
 		w := &world{root: root, walDir: filepath.Join(root, "wal"), in: newInterner(), seen: map[int]int{}, cache: segCache{}, logName: "ELog",
-			racy: map[int64]bool{}, labRefs: map[int64]map[uint64]bool{}}
+			racy: map[int64]bool{}, labRefs: map[int64]map[uint64]bool{}, kindsAt: map[int64]int{}}
 		w.open(math.MinInt64)
 		a, b := labels.FromStrings("__name__", "a"), labels.FromStrings("__name__", "b")
 		commit := func(t int64, withA bool, m *metadata.Metadata) {
@@ -1092,12 +1327,23 @@ func main() {
 		var term string
 		var desc map[string]any
 		var w *world
-		if i%4 == 3 { // every fourth history is an agent DB history
-			term, desc, w = runAgentCase(f.Out, f.Seed, i)
+		if i%4 == 3 { // every fourth history is an agent DB history; the first one is a fixed reproducer
+			term, desc, w = runAgentCase(f.Out, f.Seed, i, i == 3)
 			meta.Hit("agent-history")
 		} else {
-			term, desc, w = runCase(f.Out, f.Seed, i, -1)
+			corpus := -1
+			if i == 0 { // fixed reproducer: every record kind at mint-1 / mint / mint+1
+				corpus = 0
+			}
+			term, desc, w = runCase(f.Out, f.Seed, i, corpus)
 			meta.Hit("head-history")
+			for d, name := range []string{"mint-1", "mint", "mint+1"} {
+				for k := 0; k < 5; k++ {
+					if w.boundary[d]&(1<<k) != 0 {
+						meta.Hit("truncation-with-" + kindNames[k] + "-sample-at-" + name)
+					}
+				}
+			}
 		}
 		cf.Add(term)
 		meta.Case(i, desc)
